@@ -399,6 +399,18 @@ class Translator:
                 L.append(f"theorem {name}_present : False := by decide  -- entry point missing from sampling.py")
         L.append("theorem driver_coherent : (check driver Coh.stale).isSome = true := by decide")
         L.append("")
+        L.append("/- C12: entry points that must agree differ only by operations that are the identity under the stated hypothesis -/")
+        L.append('def optTags : List String := ["optimize"]')
+        L.append('def setupTags : List String := ["optimize", "build_measurement_intermediates", "build_propagation_intermediates"]')
+        pairs = [("ad_eq_ad_norot", "optTags", "propagate_phaseless_ad", "propagate_phaseless_ad_norot"),
+                 ("ad_nosr_eq_ad_nosr_norot", "optTags", "propagate_phaseless_ad_nosr", "propagate_phaseless_ad_nosr_norot"),
+                 ("ad_norot_eq_plain", "setupTags", "propagate_phaseless_ad_norot", "propagate_phaseless")]
+        for thm, tags, a, b in pairs:
+            if a in self.progs and b in self.progs:
+                L.append(f"theorem {thm} : eraseTags {tags} m_{a} = eraseTags {tags} m_{b} := by decide")
+            else:
+                L.append(f"theorem {thm} : False := by decide  -- entry point missing")
+        L.append("")
         L.append("def entryPoints : List (String × Prog) := [" + ", ".join(f'("{n}", m_{n})' for n in ENTRY if n in self.progs)
                  + ', ("driver", driver)]')
         L.append("")
